@@ -42,7 +42,7 @@ def run_cli(t, args):
             doc = json.loads(p.stdout)
         except Exception:
             doc = None
-    return p.returncode, doc, p.stderr[-600:], " ".join(cmd[1:])
+    return p.returncode, doc, p.stderr[:3000], " ".join(cmd[1:])
 
 
 def is_private(a):
@@ -116,11 +116,42 @@ def main():
         replay_args = json.load(open(os.environ["VERIF_REPLAY"]))["scenario"]
         n = 1
     spec = {"routers": 2, "port": 443, "port_open": True, "tcp_sack_off": False, "silent": [], "max_ttl_delta": 1, "queries": 1, "e2e": 0, "protos": ["udp"], "timeout_ms": 200, "concurrent_cli": False}
-    t = k.Topo(900 + {"C17": 0, "C19": 1, "C07": 2}.get(PROP, 3), spec)
+    t = k.Topo(900 + {"C17": 0, "C19": 1, "C07": 2, "C16": 4}.get(PROP, 3), spec)
     violations, samples, labels, evals, nontrivial = [], [], {}, 0, 0
     infra = None
     try:
         t.up()
+        if PROP == "C16":
+            # what the command prints is the result document: it must decode to what was asked, whatever the target
+            # looks like (zone identifiers carry a percent sign)
+            n = 0
+            cases = [("127.0.0.1", []), ("::1", ["--ipv6"]), ("::1%lo", ["--ipv6"]), ("::1%1", ["--ipv6"]), ("[::1%lo]:33434", ["--ipv6"]), (t.dest_addr(False), [])]
+            for target, extra in cases:
+                for proto in ("udp", "icmp"):
+                    cmd = [k.CLI, "--proto", proto, "--max-ttl", "2", "-q", "1", "-Q", "1", "--timeout", "200"] + extra + [target]
+                    p = subprocess.run(["ip", "netns", "exec", t.names[0]] + cmd, stdout=subprocess.PIPE, stderr=subprocess.PIPE, text=True, timeout=120)
+                    evals += 1
+                    nontrivial += 1 if "%" in target else 0
+                    labels["target:" + target] = labels.get("target:" + target, 0) + 1
+                    bad = None
+                    if p.returncode != 0:
+                        # a target the tool rejects is no document at all: nothing to decode (and nothing wrong)
+                        if len(samples) < 8:
+                            samples.append({"command_line": " ".join(cmd[1:]), "rejected": ([l for l in p.stderr.splitlines() if l.startswith("Error")] or [""])[0][:160]})
+                        continue
+                    try:
+                        doc = json.loads(p.stdout)
+                        if doc["destination"]["hostname"] != target:
+                            bad = "the printed document decodes to hostname %r, the target given was %r" % (doc["destination"]["hostname"], target)
+                    except Exception as e:
+                        bad = "what the command printed is not a JSON document (%s): %r" % (e, p.stdout[:200])
+                    if len(samples) < 8:
+                        samples.append({"command_line": " ".join(cmd[1:]), "ok": bad is None})
+                    if bad:
+                        violations.append({"cmd": " ".join(cmd[1:]), "msg": "%s: %s" % (" ".join(cmd[1:]), bad), "args": cmd[1:], "want": None})
+                        break
+                if violations:
+                    break
         for i in range(n):
             if PROP == "C17":
                 args, want = gen_c17(rng)
@@ -130,7 +161,7 @@ def main():
                 for attempt in range(3):
                     rc, doc, err, cmd = run_cli(t, args)
                     if rc != 0 or not doc:
-                        bad = "the CLI failed (rc=%d): %s" % (rc, err.strip().splitlines()[-1] if err.strip() else "")
+                        bad = "the CLI failed (rc=%d): %s" % (rc, ([l for l in err.splitlines() if l.startswith("Error")] or err.strip().splitlines() or [""])[0][:300])
                         continue
                     hops = [h for r in doc["traceroute"]["runs"] for h in r["hops"]]
                     shown = [h["ip_address"] for h in hops if h.get("ip_address") and is_private(h["ip_address"])]
@@ -159,7 +190,7 @@ def main():
                 for attempt in range(3):
                     rc, doc, err, cmd = run_cli(t, args)
                     if rc != 0 or not doc:
-                        bad = "the CLI failed (rc=%d): %s" % (rc, err.strip().splitlines()[-1] if err.strip() else "")
+                        bad = "the CLI failed (rc=%d): %s" % (rc, ([l for l in err.splitlines() if l.startswith("Error")] or err.strip().splitlines() or [""])[0][:300])
                         continue
                     runs = doc["traceroute"]["runs"]
                     exp = min(want["max_ttl"], 3)  # two routers, then the destination
@@ -199,6 +230,7 @@ def main():
         t.down()
     rule = {"C17": "generated command lines for the binary built from the working tree, run in a namespace topology whose two routers have private addresses: 0..2 occurrences of --skip-private-hops (bare, =true, =false) among up to four other boolean flags spelt --flag=false, in random order around the value flags, udp / icmp / tcp; oracle: redaction is in force iff the last --skip-private-hops is not =false: then no hop of the printed document carries a private address, RTT, reachability or names, otherwise the routers' private addresses are shown; non-trivial = redaction in force with other boolean flags on the line",
             "C07": "generated command lines for the binary built from the working tree on a path of two routers and a destination that all answer within microseconds: icmp (mostly), udp, tcp with last TTL 1 / 2 / 3 / 10, 1 or 3 runs, 0..8 end-to-end probes, timeouts 150..500 ms; oracle: the command succeeds and every run lists the routers and the destination that answered (replies that arrived well before any deadline are in the output whatever the combination of flags); non-trivial always",
+            "C16": "the binary built from the working tree run against loopback and namespace targets written as plain literals, IPv6 literals with a zone identifier (::1%lo, ::1%1) and a bracketed literal with zone and port, udp and icmp; oracle: whenever the command succeeds, what it printed is one JSON document whose destination.hostname is the target as given; non-trivial = a target with a percent sign",
             "C19": "generated command lines for the binary built from the working tree (protocol, last TTL, runs, end-to-end probes, port and timeout, each in --flag value, --flag=value or short form, in random order) on a path of two routers and a destination; oracle: the printed document has the protocol, the number of runs and end-to-end samples and the destination port that were asked for, and min(last TTL, 3) entries per run; non-trivial always"}[PROP]
     stats = {"prop": PROP, "name": NAME, "evaluations": evals, "distinct_nontrivial": nontrivial, "hashes": [], "extra_distinct": nontrivial, "labels": labels, "samples": samples, "rule": rule,
              "assumptions": ["real kernel and real time in the loop; a missing hop is retried up to 3 times, a wrong flag meaning is not"], "exhaustive": False, "excluded_known": 0, "known_findings_seen": [], "violations": len(violations)}
